@@ -146,7 +146,7 @@ def replay_case(args):
                                         dict(base, stage='replay', variant='simple', segments=[N],
                                              callbacks=simp['ncb'])))
                 pe = SL.pair_event('optimised-vs-simple', sol, N, opt['its'], simp['its'], opt['ncb'][0],
-                                   simp['ncb'][0])
+                                   simp['ncb'][0], start=SL.vec(inst['x0']))
                 if pe is not None:
                     pe['meta'] = dict(base, variant='pair', segments=[N])
                     res['events'].append(pe)
@@ -194,11 +194,101 @@ def replay_case(args):
                 pe = None
                 if quick or (n + m == N and n == 1 + zlib.crc32(inst['tag'].encode()) % (N - 1)):
                     # (thorough: the lattice comparison above covers every splitting; one relational event per instance)
-                    pe = SL.pair_event('resume', sol, n + m, ref_run['its'][:n + m], sp['its'], n + m, sum(sp['ncb']))
+                    pe = SL.pair_event('resume', sol, n + m, ref_run['its'][:n + m], sp['its'], n + m, sum(sp['ncb']),
+                                       start=SL.vec(inst['x0']))
                 if pe is not None:
                     pe['meta'] = dict(base, variant='pair', segments=[n, m])
                     res['events'].append(pe)
+    # ---- the same abstract instance under option forms and dyadic scalings (iterates scale exactly): every
+    # ---- stated relation must hold unchanged; an absolute tolerance or a mis-handled option form shows up here
+    for o in option_variants(inst, quick, seedbit):
+        base = {'inst': inst, 'conc': 'rn', 'opts': o}
+        oname = option_name(o)
+        osig = lambda clause: dict(sig_of(inst, clause), option=oname)
+        a = SL.run_real(inst, 'rn', 'opt', [N], pass_state=(sol == 'pdhg'), opts=o)
+        res['counts'].append(([sol, inst['tag'], qstr(inst), 'opt', o], nontriv))
+        if a['err']:
+            res['viol'].append((osig('raised'), dict(base, stage='replay', variant='opt', segments=[N], error=a['err'])))
+            continue
+        sa = snapped_its(a['its'], rows, N)
+        if a['ncb'] != [N]:
+            res['viol'].append((osig('callback-count'), dict(base, stage='replay', variant='opt', segments=[N],
+                                                             callbacks=a['ncb'])))
+        tb = [k for k in sa if sa[k] != exp[k]]
+        if sol in SIBLING:
+            b = SL.run_real(inst, 'rn', 'simple', [N], opts=o)
+            res['counts'].append(([sol, inst['tag'], qstr(inst), 'simple', o], nontriv))
+            if b['err']:
+                res['viol'].append((osig('raised'), dict(base, stage='replay', variant='simple', segments=[N],
+                                                         error=b['err'])))
+                continue
+            sb = snapped_its(b['its'], rows, N)
+            bad = [k for k in sa if k in sb and sa[k] != sb[k]]
+            if len(a['its']) != N or len(b['its']) != N:
+                bad = bad or [0]
+            if bad:
+                k0 = bad[0]
+                res['viol'].append((osig('optimised-vs-simple'),
+                                    dict(base, stage='replay', clause='optimised-vs-simple', segments=[N],
+                                         first_bad_iteration=k0, optimised=sa.get(k0), simple=sb.get(k0),
+                                         specification=exp.get(k0))))
+            elif tb:
+                res['drift'].append('%s %s: under option %s optimised and _simple agree but leave the textbook iterates at k=%d'
+                                    % (SL.REALNAME[sol], inst['tag'], oname, tb[0]))
+            pe = SL.pair_event('optimised-vs-simple', sol, N, a['its'], b['its'], a['ncb'][0], b['ncb'][0],
+                               start=SL.vec(inst['x0']))
+            if pe is not None:
+                pe['meta'] = dict(base, variant='pair', segments=[N], option=oname)
+                res['events'].append(pe)
+        elif tb:
+            res['drift'].append('%s %s: under option %s real iterates leave the textbook sequence at k=%d'
+                                % (SL.REALNAME[sol], inst['tag'], oname, tb[0]))
+        if sol in RESUMABLE:
+            n = 1 + zlib.crc32(dumps(o).encode()) % (N - 1)
+            sp = SL.run_real(inst, 'rn', 'opt', [n, N - n], pass_state=True, opts=o)
+            res['counts'].append(([sol, inst['tag'], qstr(inst), 'split', n, N - n, o], nontriv))
+            if sp['err']:
+                res['viol'].append((osig('raised'), dict(base, stage='replay', variant='opt', segments=[n, N - n],
+                                                         error=sp['err'])))
+            elif not same_run(sp, a, rows, N):
+                res['viol'].append((osig('resume'), dict(base, stage='replay', clause='resume', segments=[n, N - n])))
     return res
+
+
+def option_variants(inst, quick, seedbit):
+    """Option forms / scalings under which an exported instance is re-run (quick: a rotating choice that is a
+    function of the instance; thorough: all)."""
+    sol = inst['solver']
+    h = zlib.crc32(dumps([inst['tag'], qstr(inst)]).encode()) + seedbit
+    sc = SL.SCALES
+    out = [{'scale': sc[h % 3]}] if quick else [{'scale': v} for v in sc]
+    if sol == 'adu':
+        fm = SL.ISTEP_FORMS
+        if quick:
+            out += [{'istep': fm[h % 3]}, {'istep': fm[(h + 1) % 3], 'scale': sc[(h + 1) % 3]}]
+        else:
+            out += [{'istep': f} for f in fm] + [{'istep': fm[i], 'scale': sc[i]} for i in range(3)]
+    if sol == 'pg':
+        out.append({'lam_callable': True})
+    if sol == 'sd':
+        out.append({'ls_object': True})
+    return out
+
+
+def option_name(o):
+    parts = []
+    if 'istep' in o:
+        parts.append('inner_stepsizes=' + o['istep'])
+    if 'scale' in o:
+        parts.append('scaled')
+    if o.get('lam_callable'):
+        parts.append('lam=callable')
+    if o.get('ls_object'):
+        parts.append('line_search=object')
+    for g in ('gamma_primal', 'gamma_dual'):
+        if o.get(g):
+            parts.append(g)
+    return '+'.join(parts) or 'default'
 
 
 def drift_add(agg, msg):
@@ -252,6 +342,13 @@ def rel_families():
     for sol in ('admm', 'dpdc'):
         fams += [(sol, fk, gk, 'optimised-vs-simple') for fk in SL.REL_F for gk in SL.REL_G]
     fams += [('adu', 'Zero', gk, 'optimised-vs-simple') for gk in SL.REL_G]
+    # option axes enumerated deterministically (so that every option family is met under every seed)
+    fams += [('adu', 'Zero', gk, 'optimised-vs-simple', 'istep=' + form)
+             for gk in SL.ARRAY_STEP_OK for form in ('array', 'list', 'element', 'nonconst')]
+    fams += [('adu', 'Zero', gk, 'optimised-vs-simple', 'random') for gk in ('L1', 'L2sq', 'KL')]
+    fams += [('pg', fk, 'L2sq', 'resume', 'lam_callable') for fk in ('L1', 'Box')]
+    fams += [(sol, 'Zero', 'L2sq', 'resume', 'projection') for sol in ('landweber', 'kaczmarz', 'sd')]
+    fams += [('sd', 'Zero', 'L2sq', 'resume', 'ls_object'), ('kaczmarz', 'Zero', 'L2sq', 'resume', 'omega_list')]
     fams += [('pdhg', fk, gk, 'resume') for fk in SL.REL_F for gk in SL.REL_G]
     fams += [('pg', fk, 'L2sq', 'resume') for fk in SL.REL_F]
     fams += [(sol, 'Zero', 'L2sq', 'resume') for sol in ('landweber', 'kaczmarz', 'mlem', 'sd')]
@@ -261,12 +358,13 @@ def rel_families():
 def rel_case(args):
     """One relational comparison of two real runs; returns (event or None, violations, count-key)."""
     fam, seed = args
-    sol, fk, gk, clause = fam
+    sol, fk, gk, clause = fam[:4]
     rnd = random.Random(seed)
-    d = SL.rel_desc(rnd, sol, fk, gk)
+    d = SL.rel_desc(rnd, sol, fk, gk, force=fam[4] if len(fam) > 4 else None)
     N = d['niter']
     viol = []
-    sig = {'solver': SL.REALNAME[sol], 'functional': (gk if sol == 'adu' else fk), 'dual': gk, 'clause': clause}
+    sig = {'solver': SL.REALNAME[sol], 'functional': (gk if sol == 'adu' else fk), 'dual': gk, 'clause': clause,
+           'option': SL.rel_option_name(d)}
     if clause == 'optimised-vs-simple':
         segs = [N]
         a = SL.rel_run(d, 'opt', [N])
@@ -282,7 +380,7 @@ def rel_case(args):
     if a['err'] or b['err']:
         viol.append((dict(sig, clause='raised'), dict(meta, stage='relational', error=a['err'] or b['err'])))
         return None, viol, [sol, fk, gk, clause]
-    ev = SL.pair_event(clause, sol, N, a['its'], b['its'], na, nb)
+    ev = SL.pair_event(clause, sol, N, a['its'], b['its'], na, nb, start=np.array(d['x0'], dtype=float))
     if ev is None:
         return None, viol, None         # non-finite iterates: not comparable, not counted
     ev['meta'] = meta
@@ -295,7 +393,17 @@ def callback_case(args):
     run with itself carries the callback count; TLC checks count = niter."""
     kind, seed = args
     from . import c12
-    if kind in ('cg', 'cgn'):
+    if kind in ('adu-inner', 'kaczmarz-inner'):
+        # callback_loop='inner' is documented as one callback per inner (block) iteration
+        sol = kind.split('-')[0]
+        d = SL.rel_desc(random.Random(seed), sol, 'Zero', 'L2sq')
+        d['opts']['callback_loop'] = 'inner'
+        r = SL.rel_run(d, 'opt', [d['niter']])
+        blocks = len(d['Ms']) if sol == 'adu' else len(d['Ms'][0][0])
+        its, err, N = r['its'], r['err'], d['niter'] * blocks
+        meta = {'desc': d, 'callbacks_of': kind}
+        kind = sol
+    elif kind in ('cg', 'cgn'):
         d = c12.smooth_desc(np.random.default_rng(seed), kind, 10)
         its, err = c12.smooth_run(d)
         its, N = its[1:], d['niter']
@@ -439,7 +547,7 @@ def run(ctx):
     rnd = random.Random(ctx.seed * 7919 + 11)
     nextra = 300 if quick else 6000
     rtasks += [(fams[rnd.randrange(len(fams))], rnd.randrange(2 ** 31)) for _ in range(nextra)]
-    ctasks = [(kind, 1000 * ki + i + 31 * ctx.seed) for ki, kind in enumerate(['dr', 'fb', 'apg', 'cg', 'cgn'])
+    ctasks = [(kind, 1000 * ki + i + 31 * ctx.seed) for ki, kind in enumerate(['dr', 'fb', 'apg', 'cg', 'cgn', 'adu-inner', 'kaczmarz-inner'])
               for i in range(12 if quick else 200)]
     with mp.get_context('fork').Pool(8 if quick else 12) as pool:
         routs = pool.map(rel_case, rtasks, chunksize=8)
@@ -497,7 +605,10 @@ def replay(body):
     print('signature:', dumps(sig))
     if 'callbacks_of' in d:
         from . import c12
-        if 'desc' in d:
+        if 'desc' in d and d['desc'].get('opts', {}).get('callback_loop'):
+            r = SL.rel_run(d['desc'], 'opt', [d['desc']['niter']])
+            n, N, err = len(r['its']), d['niter'], r['err']
+        elif 'desc' in d:
             its, err = c12.smooth_run(d['desc'])
             n, N = len(its) - 1, d['desc']['niter']
         else:
@@ -519,7 +630,7 @@ def replay(body):
     else:
         inst, conc = d['inst'], d['conc']
         print('instance :', inst['solver'], inst['tag'], 'concretisation', conc, 'segments', segs)
-        runner = lambda variant, sg, ps=True: SL.run_real(inst, conc, variant, sg, pass_state=ps)
+        runner = lambda variant, sg, ps=True: SL.run_real(inst, conc, variant, sg, pass_state=ps, opts=d.get('opts'))
     if which == 'optimised-vs-simple' or d.get('variant') == 'simple':
         a, b, bsegs = runner('opt', [N]), runner('simple', [N]), [N]
     elif d.get('note'):                      # pdhg: x_relax / y owned by the caller vs the plain call
